@@ -136,6 +136,7 @@ func solve(name string, lines []string, timeoutS int, cross bool) SolveResult {
 	}
 	best := SolveResult{Status: "unknown"}
 	var total float64
+	nerr := 0
 	for range solvers {
 		x := <-ch
 		res.Answers[x.sp.name] = x.st
@@ -153,6 +154,7 @@ func solve(name string, lines []string, timeoutS int, cross bool) SolveResult {
 				best = SolveResult{Status: "timeout", Solver: x.sp.name, Time: x.dt, Output: x.out}
 			}
 		case "error":
+			nerr++
 			if best.Status == "unknown" && best.Output == "" {
 				best.Output = x.sp.name + ": " + trunc(x.out, 400)
 			}
@@ -162,6 +164,9 @@ func solve(name string, lines []string, timeoutS int, cross bool) SolveResult {
 		}
 	}
 	best.Answers = res.Answers
+	if nerr == len(solvers) {
+		best.Status = "error"
+	}
 	if cross {
 		hasSat, hasUnsat := false, false
 		for _, v := range res.Answers {
